@@ -627,9 +627,26 @@ pub fn cmp_count() -> u64 {
     CMP_COUNT.with(|c| c.get())
 }
 
-/// Element whose `PartialEq` counts calls and advances the virtual clock.
-#[derive(Debug, Clone, Copy, Eq, PartialOrd, Ord)]
+/// Element whose `PartialEq` AND `Ord` / `PartialOrd` count calls and advance the virtual clock
+/// (an ordering comparison is an element comparison too).
+#[derive(Debug, Clone, Copy, Eq)]
 pub struct CountingElem(pub u32);
+
+impl PartialOrd for CountingElem {
+    #[inline]
+    fn partial_cmp(&self, other: &Self) -> Option<std::cmp::Ordering> {
+        Some(self.cmp(other))
+    }
+}
+
+impl Ord for CountingElem {
+    #[inline]
+    fn cmp(&self, other: &Self) -> std::cmp::Ordering {
+        CMP_COUNT.with(|c| c.set(c.get() + 1));
+        similar::verif_hooks::advance(1);
+        self.0.cmp(&other.0)
+    }
+}
 
 impl PartialEq for CountingElem {
     #[inline]
@@ -690,8 +707,23 @@ impl PartialEq<u32> for Tol {
 
 /// Generic counting item: `PartialEq` counts calls (and advances the virtual clock); `Hash`,
 /// `Ord` delegate to the wrapped value, so the hashing behaviour is that of the plain type.
-#[derive(Debug, Clone, Eq, PartialOrd, Ord)]
+#[derive(Debug, Clone, Eq)]
 pub struct CountingKey<T>(pub T);
+
+impl<T: Ord> PartialOrd for CountingKey<T> {
+    #[inline]
+    fn partial_cmp(&self, other: &Self) -> Option<std::cmp::Ordering> {
+        Some(self.cmp(other))
+    }
+}
+
+impl<T: Ord> Ord for CountingKey<T> {
+    #[inline]
+    fn cmp(&self, other: &Self) -> std::cmp::Ordering {
+        CMP_COUNT.with(|c| c.set(c.get() + 1));
+        self.0.cmp(&other.0)
+    }
+}
 
 impl<T: PartialEq> PartialEq for CountingKey<T> {
     #[inline]
